@@ -1,7 +1,7 @@
 """C03 - PUS-C telemetry for any timestamp length: exact encoding, inverse decode, short length rejected."""
 from __future__ import annotations
 
-from spverif.core.util import attempt, exc_sig, documented_errors, pool_uint, rand_uint, rand_bytes
+from spverif.core.util import attempt, exc_sig, documented_errors, pool_uint, rand_uint, rand_bytes, hist_len
 from spverif.ref import pus as R
 from spverif.ref.crc import crc16
 
@@ -256,7 +256,7 @@ def k_view_history(ctx, seed):
         else:
             t = tmm.PusTm.unpack(bytes(t.pack()), len(ts))
     ops = []
-    for step in range(r.randrange(2, 9)):
+    for step in range(hist_len(r, 2, 9)):
         op = r.choice(("pack", "calc_crc", "view", "apid", "tm_data", "pack_cached", "seq_count", "poison", "calc_crc_cached") + (("wrapper_pack", "wrapper_pack") if wrapper is not None else ()))
         ops.append(op)
         if op == "pack":
